@@ -1,4 +1,4 @@
-import Proofs.Lemmas.C08FragNamed
+import Proofs.Lemmas.C08FragVCls
 /-!
 # C08 fragment equivalence, part 3: the simulation
 
@@ -27,11 +27,11 @@ theorem quantStep_some {g : Nat} {out : AtomOut} {q : Quant} {r2 : List Nat}
 /-- Quantifiable atom: the optional quantifier, crate against grammar. -/
 theorem quantStep_qa {F : Feat} {u : Bool} {Γ : Glob} (g : Nat) (out : AtomOut) (hqa : out.quantifierAllowed = true)
     (hoff : out.startOffset ≤ out.result.length) (hi : PInv F u Γ out.st) (est : ESG.St)
-    (hj : Joint Γ est out.st) :
+    (hj : Joint F Γ est out.st) :
     match optQuant out.st.input with
     | .ok r2 =>
       (∃ st' acc', quantStep g out = .ok (st', acc') ∧ st'.input = r2 ∧ st'.depth = out.st.depth ∧
-        PInv F u Γ st' ∧ Joint Γ est st') ∨
+        PInv F u Γ st' ∧ Joint F Γ est st') ∨
       (qbad u r2 = true ∧ IsSyn (quantStep g out))
     | .bad => IsSyn (quantStep g out)
     | .fuel => False := by
@@ -65,7 +65,7 @@ theorem quantStep_qa {F : Feat} {u : Bool} {Γ : Glob} (g : Nat) (out : AtomOut)
       have hi2 := hi.drop hp hnp
       have hj2 := hj.drop hp hnp
       refine ⟨_, _, rfl, rfl, rfl, ⟨hi2.uni, hi2.nov, hi2.frag, hi2.chars, hi2.depth, hi2.groups, ?_, hi2.gmax, hi2.cap,
-        hi2.named, hi2.nok⟩, ⟨hj2.groups, hj2.names⟩⟩
+        hi2.named, hi2.nok, hi2.usets⟩, ⟨hj2.groups, hj2.names⟩⟩
       simp only; omega
     · right
       refine ⟨hb, msg, ?_⟩
@@ -158,7 +158,78 @@ theorem closeParen_syn {cd : PState → Res (Node × PState)} {st1 : PState}
     simp only [ht]
     exact isSyn_synErr _
 
+/-- `cd st1`, then the flags restored (modifier groups), then `)`. -/
+def wrapCdF (cd : PState → Res (Node × PState)) (st1 : PState) (saved : Flags) : Res (Node × PState × Bool) :=
+  match cd st1 with
+  | .error e => .error e
+  | .ok (nd, st) => .ok (nd, { st with flags := saved }, true)
+
+theorem closeParenF_ok {cd : PState → Res (Node × PState)} {st1 st2 : PState} {nd : Node} {r : List Nat}
+    (saved : Flags) (acc : List Node) (off : Nat)
+    (h : cd st1 = .ok (nd, st2)) (hr : st2.input = 0x29 :: r) :
+    closeParenA acc off (wrapCdF cd st1 saved) =
+      .ok ⟨acc ++ [nd], { st2 with flags := saved, input := r }, off, true⟩ := by
+  unfold closeParenA wrapCdF
+  rw [h]
+  simp [tryConsume, hr]
+
+theorem closeParenF_syn {cd : PState → Res (Node × PState)} {st1 : PState}
+    (saved : Flags) (acc : List Node) (off : Nat)
+    (h : IsSyn (cd st1) ∨ ∃ nd st2, cd st1 = .ok (nd, st2) ∧ ∀ r, st2.input ≠ 0x29 :: r) :
+    IsSyn (closeParenA acc off (wrapCdF cd st1 saved)) := by
+  unfold closeParenA wrapCdF
+  rcases h with ⟨msg, h⟩ | ⟨nd, st2, h, hr⟩
+  · rw [h]; exact ⟨msg, rfl⟩
+  · rw [h]
+    have ht : tryConsume 0x29 { st2 with flags := saved } = (false, { st2 with flags := saved }) := by
+      unfold tryConsume
+      cases hi : st2.input with
+      | nil => simp [hi]
+      | cons d rest =>
+        simp only [hi]
+        by_cases hd : d = 0x29
+        · subst hd; exact absurd hi (hr rest)
+        · simp [hd]
+    simp only [ht]
+    exact isSyn_synErr _
+
 /-! ### `atomParenA` on the shapes of the fragment -/
+
+theorem paren_mod_head {y : Nat} {r : List Nat} (hy : y = 0x69 ∨ y = 0x6D ∨ y = 0x73 ∨ y = 0x2D) :
+    modifierGroupHead (0x28 :: 0x3F :: y :: r) = some (modifierScan (y :: r) {}) := by
+  unfold modifierGroupHead
+  have : (y == 0x3C) = false := by rcases hy with rfl | rfl | rfl | rfl <;> rfl
+  simp [this]
+
+theorem paren_mod_ok {cd : PState → Res (Node × PState)} {st : PState} {acc : List Node} {y : Nat}
+    {r rest : List Nat} {mods : Mods}
+    (hin : st.input = 0x28 :: 0x3F :: y :: r) (hy : y = 0x69 ∨ y = 0x6D ∨ y = 0x73 ∨ y = 0x2D)
+    (h : modifierScan (y :: r) {} = .ok (mods, rest)) :
+    atomParenA cd st acc = closeParenA acc acc.length
+      (wrapCdF cd { st with input := rest, flags := applyMods st.flags mods } st.flags) := by
+  have e1 : (0x3D == y) = false := by rcases hy with rfl | rfl | rfl | rfl <;> rfl
+  have e2 : (0x21 == y) = false := by rcases hy with rfl | rfl | rfl | rfl <;> rfl
+  have e3 : (0x3C == y) = false := by rcases hy with rfl | rfl | rfl | rfl <;> rfl
+  have e4 : (0x3A == y) = false := by rcases hy with rfl | rfl | rfl | rfl <;> rfl
+  unfold atomParenA
+  simp only [tryConsumeStr, stripPrefix?, hin, beq_self_eq_true, if_true, e1, e2, e3, e4,
+    Bool.false_eq_true, if_false, paren_mod_head hy, h]
+  rfl
+
+theorem paren_mod_err {cd : PState → Res (Node × PState)} {st : PState} {acc : List Node} {y : Nat}
+    {r : List Nat}
+    (hin : st.input = 0x28 :: 0x3F :: y :: r) (hy : y = 0x69 ∨ y = 0x6D ∨ y = 0x73 ∨ y = 0x2D)
+    (h : IsSyn (modifierScan (y :: r) {})) : IsSyn (atomParenA cd st acc) := by
+  obtain ⟨msg, h⟩ := h
+  have e1 : (0x3D == y) = false := by rcases hy with rfl | rfl | rfl | rfl <;> rfl
+  have e2 : (0x21 == y) = false := by rcases hy with rfl | rfl | rfl | rfl <;> rfl
+  have e3 : (0x3C == y) = false := by rcases hy with rfl | rfl | rfl | rfl <;> rfl
+  have e4 : (0x3A == y) = false := by rcases hy with rfl | rfl | rfl | rfl <;> rfl
+  unfold atomParenA
+  simp only [tryConsumeStr, stripPrefix?, hin, beq_self_eq_true, if_true, e1, e2, e3, e4,
+    Bool.false_eq_true, if_false, paren_mod_head hy, h]
+  exact ⟨msg, rfl⟩
+
 
 theorem paren_lookahead {cd : PState → Res (Node × PState)} {st : PState} {acc : List Node} {r : List Nat}
     (x : Nat) (hx : x = 0x3D ∨ x = 0x21) (hin : st.input = 0x28 :: 0x3F :: x :: r) :
@@ -309,6 +380,18 @@ theorem atom_qend (c : Cfg) (n : Nat) (est : ESG.St) :
   unfold atom
   simp [modifiers, takeMods]
 
+theorem atom_mod_some (c : Cfg) (n : Nat) {y : Nat} {r r1 : List Nat} (est : ESG.St) (hy : y ≠ 0x3C)
+    (h : modifiers c (y :: r) = some r1) :
+    atom c (n + 1) (0x28 :: 0x3F :: y :: r) est = body c n r1 est := by
+  unfold atom
+  simp [hy, h]
+
+theorem atom_mod_none (c : Cfg) (n : Nat) {y : Nat} {r : List Nat} (est : ESG.St) (hy : y ≠ 0x3C)
+    (h : modifiers c (y :: r) = none) :
+    atom c (n + 1) (0x28 :: 0x3F :: y :: r) est = .bad := by
+  unfold atom
+  simp [hy, h]
+
 theorem atom_capture (c : Cfg) (n : Nat) (r : List Nat) (est : ESG.St) (hr : ∀ r', r ≠ 0x3F :: r') :
     atom c (n + 1) (0x28 :: r) est = body c n r { est with groups := est.groups + 1 } := by
   unfold atom
@@ -449,7 +532,8 @@ theorem cAtom_wb {cd : PState → Res (Node × PState)} {st : PState} {acc : Lis
 theorem backslash_sim (F : Feat) (c : Cfg) (hcu : c.u = true) (st : PState) (hu : st.flags.unicode = true)
     (acc : List Node) {r0 : List Nat} (hin : st.input = 0x5C :: r0) (hfr : fragCore F (0x5C :: r0) = true)
     (hch : AllChar r0) (hwb : lookShape (0x5C :: r0) = false)
-    (hnd : ∀ x r, r0 = x :: r → ¬ (0x31 ≤ x ∧ x ≤ 0x39)) (hnk : ∀ r, r0 ≠ 0x6B :: r) (est : ESG.St) :
+    (hnd : ∀ x r, r0 = x :: r → ¬ (0x31 ≤ x ∧ x ≤ 0x39)) (hnk : ∀ r, r0 ≠ 0x6B :: r)
+    (hnp : ∀ r, r0 ≠ 0x70 :: r ∧ r0 ≠ 0x50 :: r) (est : ESG.St) :
     match atomEscape c r0 est with
     | .ok (r', est') => est' = est ∧ ∃ nd p,
         atomBackslashA st acc = .ok ⟨acc ++ [nd], { st with input := r' }, acc.length, true⟩ ∧
@@ -462,13 +546,12 @@ theorem backslash_sim (F : Feat) (c : Cfg) (hcu : c.u = true) (st : PState) (hu 
     unfold atomBackslashA
     rw [consume_eq hin]
     exact isSyn_synErr _
-  · rw [fragCore_esc] at hfr
-    simp only [Bool.and_eq_true] at hfr
-    obtain ⟨⟨_, hx0⟩, _⟩ := hfr
-    have hx : escOk false x = true := by
+  · have hx : escOk false x = true := by
       have hk : x ≠ 0x6B := fun e => hnk r (by rw [e])
-      simp only [escOk, Bool.not_eq_true', Bool.or_eq_false_iff, beq_eq_false_iff_ne, Bool.and_eq_false_iff] at hx0 ⊢
-      exact ⟨hx0.1, .inl hk⟩
+      have hp1 : x ≠ 0x70 := fun e => (hnp r).1 (by rw [e])
+      have hp2 : x ≠ 0x50 := fun e => (hnp r).2 (by rw [e])
+      simp only [escOk, Bool.not_eq_true', Bool.or_eq_false_iff, beq_eq_false_iff_ne, Bool.and_eq_false_iff]
+      exact ⟨⟨hp1, hp2⟩, .inl hk⟩
     simp only [lookShape, Bool.or_eq_false_iff, beq_eq_false_iff_ne] at hwb
     have hab : atomBackslashA st acc =
         match consumeAtomEscape { st with input := x :: r } with
@@ -494,7 +577,7 @@ theorem backslash_sim (F : Feat) (c : Cfg) (hcu : c.u = true) (st : PState) (hu 
       obtain ⟨r', est'⟩ := p
       rw [hae] at hsim
       obtain ⟨nd, hnd⟩ := hsim
-      obtain ⟨hest, t, ht, hnt⟩ := atomEscape_neutral F false c hcu hx hd hae
+      obtain ⟨hest, t, ht, hnt⟩ := atomEscape_neutral F 0 c hcu hx hd hae
       simp only
       rw [hnd]
       refine ⟨hest, nd, 0x5C :: x :: t, rfl, by rw [ht]; rfl, ?_⟩
@@ -548,6 +631,44 @@ theorem atomEscape_k (c : Cfg) (hcu : c.u = true) (r : List Nat) (est : ESG.St) 
     atomEscape c (0x6B :: r) est = namedRef c r est := by
   unfold atomEscape
   simp [hcu, ESG.isClassEscLetter, ESG.isDigit]
+
+/-- `\\p{…}` / `\\P{…}`, UnicodeMode: the crate's backslash arm against the grammar's AtomEscape. -/
+theorem backslash_p (F : Feat) (c : Cfg) (hct : c.t = tabs) (hcu : c.u = true) (st : PState)
+    (hu : st.flags.unicode = true) (hv : st.flags.unicodeSets = c.v) (acc : List Node) {x : Nat} {r : List Nat}
+    (hx : x = 0x70 ∨ x = 0x50) (hin : st.input = 0x5C :: x :: r) (est : ESG.St) :
+    match atomEscape c (x :: r) est with
+    | .ok (r', est') => est' = est ∧ ∃ nd p,
+        atomBackslashA st acc = .ok ⟨acc ++ [nd], { st with input := r' }, acc.length, true⟩ ∧
+        0x5C :: x :: r = p ++ r' ∧ Neutral F p
+    | .bad => IsSyn (atomBackslashA st acc)
+    | .fuel => False := by
+  have hab : atomBackslashA st acc =
+      match consumeAtomEscape { st with input := x :: r } with
+      | .error e => .error e
+      | .ok (nd, st') => .ok ⟨acc ++ [nd], st', acc.length, true⟩ := by
+    unfold atomBackslashA
+    rw [consume_eq hin]
+    have e1 : (x == 0x62) = false := by rcases hx with rfl | rfl <;> rfl
+    have e2 : (x == 0x42) = false := by rcases hx with rfl | rfl <;> rfl
+    simp only [e1, e2, hu, Bool.not_true, Bool.and_false, Bool.false_eq_true, if_false]
+    rfl
+  have hsim := atomEscape_p_sim c hct hcu { st with input := x :: r } hu hv hx rfl est
+  rw [hab]
+  cases hae : atomEscape c (x :: r) est with
+  | fuel => rw [hae] at hsim; exact hsim
+  | bad =>
+    rw [hae] at hsim
+    obtain ⟨msg, hm⟩ := hsim
+    simp only
+    rw [hm]; exact ⟨msg, rfl⟩
+  | ok p =>
+    obtain ⟨r', est'⟩ := p
+    rw [hae] at hsim
+    obtain ⟨hest, ⟨nd, hnd⟩, q, hq, hqp⟩ := hsim
+    simp only
+    rw [hnd]
+    refine ⟨hest, nd, 0x5C :: x :: q, rfl, by rw [hq]; rfl, ?_⟩
+    exact neutral_append (p := [0x5C, x]) (neutral_esc F x) (neutral_plains F hqp)
 
 /-- A decimal escape, UnicodeMode: the crate's backslash arm. -/
 theorem backslash_dec (st : PState) (hu : st.flags.unicode = true) (acc : List Node) {x : Nat} {r : List Nat}
@@ -611,23 +732,23 @@ groups): either the crate is at `r` too, or the crate has already failed on a qu
 grammar will fail on next. -/
 def TStep (F : Feat) (u : Bool) (Γ : Glob) (f : Nat) (st : PState) (acc : List Node) (x : Nat) (r : List Nat)
     (est' : ESG.St) : Prop :=
-  (∃ st' acc', termStep f st acc x = .ok (st', acc') ∧ CR F u Γ st r st' ∧ Joint Γ est' st') ∨
+  (∃ st' acc', termStep f st acc x = .ok (st', acc') ∧ CR F u Γ st r st' ∧ Joint F Γ est' st') ∨
   (qbad u r = true ∧ IsSyn (termStep f st acc x))
 
 def SimD (c : Cfg) (F : Feat) (u : Bool) (Γ : Glob) (n : Nat) : Prop :=
   ∀ s est, 6 * s.length + 5 ≤ n → EInv Γ est → ∀ f st terms, 4 * s.length + 2 ≤ f → st.input = s →
-    PInv F u Γ st → Joint Γ est st →
+    PInv F u Γ st → Joint F Γ est st →
     Out Γ (disj c n s est)
       (fun r est' => ∃ ts st', disjLoop f st terms = .ok (ts, st') ∧ CR F u Γ st r st' ∧
-        Joint Γ est' st')
+        Joint F Γ est' st')
       (IsSyn (disjLoop f st terms))
 
 def SimA (c : Cfg) (F : Feat) (u : Bool) (Γ : Glob) (n : Nat) : Prop :=
   ∀ s est, 6 * s.length + 4 ≤ n → EInv Γ est → ∀ f st acc, 4 * s.length + 1 ≤ f → st.input = s →
-    PInv F u Γ st → Joint Γ est st →
+    PInv F u Γ st → Joint F Γ est st →
     Out Γ (alt c n s est)
       (fun r est' => ∃ nd st', termLoop f st acc = .ok (nd, st') ∧ CR F u Γ st r st' ∧
-        Joint Γ est' st')
+        Joint F Γ est' st')
       (IsSyn (termLoop f st acc))
 
 /-- `consume_disjunction` failed, or stopped at something that is not `)`. -/
@@ -637,16 +758,16 @@ def SynB (f : Nat) (st : PState) : Prop :=
 
 def SimB (c : Cfg) (F : Feat) (u : Bool) (Γ : Glob) (n : Nat) : Prop :=
   ∀ s est, 6 * s.length + 6 ≤ n → EInv Γ est → ∀ f st, 4 * s.length + 3 ≤ f → st.input = s →
-    PInv F u Γ { st with depth := st.depth + 1 } → Joint Γ est st →
+    PInv F u Γ { st with depth := st.depth + 1 } → Joint F Γ est st →
     Out Γ (body c n s est)
       (fun r est' => ∃ nd st', consumeDisjunction f st = .ok (nd, st') ∧ st'.input = 0x29 :: r ∧
-        CR F u Γ st r { st' with input := r } ∧ Joint Γ est' { st' with input := r })
+        CR F u Γ st r { st' with input := r } ∧ Joint F Γ est' { st' with input := r })
       (SynB f st)
 
 def SimT (c : Cfg) (F : Feat) (u : Bool) (Γ : Glob) (n : Nat) : Prop :=
   ∀ x r0 est, 6 * (r0.length + 1) + 3 ≤ n → EInv Γ est → x ≠ 0x29 → x ≠ 0x7C →
     ∀ f st acc, 4 * (r0.length + 1) ≤ f → st.input = x :: r0 → PInv F u Γ st →
-    Joint Γ est st →
+    Joint F Γ est st →
     Out Γ (term c n (x :: r0) est) (fun r est' => TStep F u Γ f st acc x r est')
       (IsSyn (termStep f st acc x))
 
@@ -654,7 +775,7 @@ def SimQ (c : Cfg) (F : Feat) (u : Bool) (Γ : Glob) (n : Nat) : Prop :=
   ∀ x r0 est, 6 * (r0.length + 1) + 2 ≤ n → EInv Γ est → lookShape (x :: r0) = false →
     x ≠ 0x5E → x ≠ 0x24 → x ≠ 0x29 → x ≠ 0x7C →
     ∀ f st acc, 4 * (r0.length + 1) ≤ f → st.input = x :: r0 → PInv F u Γ st →
-    Joint Γ est st →
+    Joint F Γ est st →
     Out Γ (quantified c n (x :: r0) est) (fun r est' => TStep F u Γ f st acc x r est')
       (IsSyn (termStep f st acc x))
 
@@ -662,11 +783,11 @@ def SimM (c : Cfg) (F : Feat) (u : Bool) (Γ : Glob) (n : Nat) : Prop :=
   ∀ x r0 est, 6 * (r0.length + 1) + 1 ≤ n → EInv Γ est → lookShape (x :: r0) = false →
     x ≠ 0x5E → x ≠ 0x24 → x ≠ 0x29 → x ≠ 0x7C →
     ∀ f st acc, 4 * (r0.length + 1) ≤ f → st.input = x :: r0 → PInv F u Γ st →
-    Joint Γ est st →
+    Joint F Γ est st →
     Out Γ (atom c n (x :: r0) est)
       (fun r est' => ∃ out, consumeAtom f st acc x = .ok out ∧ CR F u Γ st r out.st ∧
         out.startOffset ≤ out.result.length ∧ out.quantifierAllowed = true ∧
-        Joint Γ est' out.st)
+        Joint F Γ est' out.st)
       (IsSyn (consumeAtom f st acc x))
 
 /-! ### Invariant bookkeeping -/
@@ -678,24 +799,25 @@ theorem PInv.enterQ {F : Feat} {u : Bool} {Γ : Glob} {st : PState} (h : PInv F 
   have h1 := h.depth; have h2 := h.groups; have h3 := h.loops; have h4 := h.frag
   have h6 := h.chars; have h8 := h.cap
   rw [hi] at h1 h2 h3 h4 h6 h8
-  have e1 : md (0x28 :: 0x3F :: (p ++ r)) = md r + 1 := by
-    rw [md_cons _ (by decide) (by decide), md_cons _ (by decide) (by decide), hp.md_eq r]; rfl
+  have e1 : dpot F r + 1 ≤ dpot F (0x28 :: 0x3F :: (p ++ r)) := by
+    rw [dpot_open, dpot_other F _ (by decide) (by decide) (by decide) (by decide)]
+    have := dpot_neutral hp r
+    omega
   have e2 : opens r ≤ opens (0x28 :: 0x3F :: (p ++ r)) := by
     have := opens_append_le p r
     simp [opens]; omega
   have e3 : quants r ≤ quants (0x28 :: 0x3F :: (p ++ r)) := by
     have := quants_append_le p r
     simp [quants]; omega
-  rw [e1] at h1
   rw [capOpens_q, hna, hp.cap_eq r] at h8
   simp only [Option.isSome_none, Bool.false_eq_true, if_false, Nat.zero_add] at h8
   have h5 := hp.frag' (fragCore_tail (by decide) (by decide) (fragCore_tail (by decide) (by decide) h4))
   exact ⟨h.uni, h.nov, h5, fun he c hc => h6 he c (by simp [hc]), by simp only; omega, by simp only; omega,
-    by simp only; omega, h.gmax, h8, h.named, h.nok⟩
+    by simp only; omega, h.gmax, h8, h.named, h.nok, h.usets⟩
 
-theorem Joint.enterQ {F : Feat} {Γ : Glob} {est : ESG.St} {st : PState} (h : Joint Γ est st) {p r : List Nat}
+theorem Joint.enterQ {F : Feat} {Γ : Glob} {est : ESG.St} {st : PState} (h : Joint F Γ est st) {p r : List Nat}
     (hi : st.input = 0x28 :: 0x3F :: (p ++ r)) (hp : Neutral F p) (hna : namedAhead (p ++ r) = none) (lb : Bool) :
-    Joint Γ est { st with input := r, depth := st.depth + 1, hasLookbehind := lb } := by
+    Joint F Γ est { st with input := r, depth := st.depth + 1, hasLookbehind := lb } := by
   have h2 := h.names
   rw [hi, lexNames_q, hna, hp.names_eq r] at h2
   exact ⟨h.groups, h2⟩
@@ -707,19 +829,19 @@ theorem PInv.enterCap {F : Feat} {u : Bool} {Γ : Glob} {st : PState} (h : PInv 
   have h1 := h.depth; have h2 := h.groups; have h3 := h.loops; have h4 := h.frag
   have h6 := h.chars; have h8 := h.cap
   rw [hi] at h1 h2 h3 h4 h6 h8
-  rw [md_cons _ (by decide) (by decide)] at h1
-  rw [capOpens_cap hr] at h8
+  rw [dpot_open] at h1
+  rw [capOpens_cap _ hr] at h8
   simp only [opens, quants] at h2 h3
-  simp at h1 h2 h3
+  simp at h2 h3
   exact ⟨h.uni, h.nov, fragCore_tail (by decide) (by decide) h4, fun he c hc => h6 he c (by simp [hc]), by simp only; omega,
-    by simp only; omega, h3, h.gmax, by simp only; omega, h.named, h.nok⟩
+    by simp only; omega, h3, h.gmax, by simp only; omega, h.named, h.nok, h.usets⟩
 
-theorem Joint.enterCap {Γ : Glob} {est : ESG.St} {st : PState} (h : Joint Γ est st) {r : List Nat}
+theorem Joint.enterCap {F : Feat} {Γ : Glob} {est : ESG.St} {st : PState} (h : Joint F Γ est st) {r : List Nat}
     (hi : st.input = 0x28 :: r) (hr : ∀ r', r ≠ 0x3F :: r') :
-    Joint Γ { est with groups := est.groups + 1 }
+    Joint F Γ { est with groups := est.groups + 1 }
       { st with input := r, depth := st.depth + 1, groupCount := st.groupCount + 1 } := by
   have h2 := h.names
-  rw [hi, lexNames_plain r (by decide) (by decide) (fun _ => hr)] at h2
+  rw [hi, lexNames_plain _ r (by decide) (by decide) (fun _ => hr)] at h2
   exact ⟨by simp only; rw [h.groups], h2⟩
 
 /-- Entering a named group: `(?<name>` consumed, `depth + 1`, one more group, one more name. -/
@@ -732,7 +854,10 @@ theorem PInv.enterNamed {F : Feat} {u : Bool} {Γ : Glob} {st : PState} (h : PIn
   have h6 := h.chars; have h8 := h.cap
   rw [hi] at h1 h2 h3 h4 h6 h8
   rw [capOpens_q, hna, hp, hnp.cap_eq r1] at h8
-  rw [md_cons _ (by decide) (by decide), md_cons _ (by decide) (by decide), hp, hnp.md_eq r1] at h1
+  have e1 : dpot F r1 + 1 ≤ dpot F (0x28 :: 0x3F :: 0x3C :: r0) := by
+    rw [dpot_open, dpot_other F _ (by decide) (by decide) (by decide) (by decide), hp]
+    have := dpot_neutral hnp r1
+    omega
   have e2 : opens r1 + 1 ≤ opens (0x28 :: 0x3F :: 0x3C :: r0) := by
     have := opens_append_le p r1
     rw [hp]; simp [opens]; omega
@@ -743,21 +868,21 @@ theorem PInv.enterNamed {F : Feat} {u : Bool} {Γ : Glob} {st : PState} (h : PIn
     have := fragCore_tail (by decide) (by decide) (fragCore_tail (by decide) (by decide) h4)
     rw [hp] at this
     exact hnp.frag' this
-  have h7 : F.e = true → ∀ c ∈ r1, Parse.isChar c = true := fun he c hc => by
+  have h7 : F.e = true ∨ F.nm = true → ∀ c ∈ r1, Parse.isChar c = true := fun he c hc => by
     refine h6 he c ?_
     have : c ∈ 0x3C :: r0 := by rw [hp]; simp [hc]
     simp only [List.mem_cons] at this ⊢
     rcases this with h | h
     · exact .inr (.inr (.inl h))
     · exact .inr (.inr (.inr h))
-  simp at h1 h8
+  simp at h8
   exact ⟨h.uni, h.nov, h5, h7, by simp only; omega, by simp only; omega, by simp only; omega, h.gmax,
-    by simp only; omega, h.named, h.nok⟩
+    by simp only; omega, h.named, h.nok, h.usets⟩
 
-theorem Joint.enterNamed {F : Feat} {Γ : Glob} {est : ESG.St} {st : PState} (h : Joint Γ est st) {r0 nm r1 : List Nat}
+theorem Joint.enterNamed {F : Feat} {Γ : Glob} {est : ESG.St} {st : PState} (h : Joint F Γ est st) {r0 nm r1 : List Nat}
     (hi : st.input = 0x28 :: 0x3F :: 0x3C :: r0) (hch : AllChar r0) (hg : groupName tabs r0 = some (nm, r1))
     (sc : List (List Nat)) :
-    Joint Γ { est with groups := est.groups + 1, names := nm :: est.names, scope := sc }
+    Joint F Γ { est with groups := est.groups + 1, names := nm :: est.names, scope := sc }
       { st with input := r1, depth := st.depth + 1, groupCount := st.groupCount + 1 } := by
   obtain ⟨p, hp, hnp⟩ := name_neutral F hch hg
   have hna : namedAhead (0x3C :: r0) = some nm := by rw [namedAhead_lt r0 hch, hg]; rfl
@@ -782,24 +907,24 @@ theorem PInv.leave {F : Feat} {u : Bool} {Γ : Glob} {st : PState} (h : PInv F u
   have h1 := h.depth; have h2 := h.groups; have h3 := h.loops; have h4 := h.frag
   have h6 := h.chars; have h8 := h.cap
   rw [hi] at h1 h2 h3 h4 h6 h8
-  rw [md_cons _ (by decide) (by decide)] at h1
-  rw [capOpens_plain _ (by decide) (by decide) (by decide)] at h8
+  have e1 := dpot_close F r
+  rw [capOpens_plain _ _ (by decide) (by decide) (by decide)] at h8
   simp only [opens, quants] at h2 h3
-  simp at h1 h2 h3
+  simp at h2 h3
   exact ⟨h.uni, h.nov, fragCore_tail (by decide) (by decide) h4, fun he c hc => h6 he c (by simp [hc]),
-    by simp only; omega, h2, h3, h.gmax, h8, h.named, h.nok⟩
+    by simp only; omega, h2, h3, h.gmax, h8, h.named, h.nok, h.usets⟩
 
-theorem Joint.leave {Γ : Glob} {est : ESG.St} {st : PState} (h : Joint Γ est st) {r : List Nat}
-    (hi : st.input = 0x29 :: r) : Joint Γ est { st with input := r, depth := st.depth - 1 } := by
+theorem Joint.leave {F : Feat} {Γ : Glob} {est : ESG.St} {st : PState} (h : Joint F Γ est st) {r : List Nat}
+    (hi : st.input = 0x29 :: r) : Joint F Γ est { st with input := r, depth := st.depth - 1 } := by
   have h2 := h.names
-  rw [hi, lexNames_plain r (by decide) (by decide) (fun h => by cases h)] at h2
+  rw [hi, lexNames_plain _ r (by decide) (by decide) (fun h => by cases h)] at h2
   exact ⟨h.groups, h2⟩
 
 /-- `Joint` only looks at the group counter and the input of the parser state, and at the group
 counter and the names of the recognizer state. -/
-theorem Joint.of_eq {Γ : Glob} {est est' : ESG.St} {st st' : PState} (h : Joint Γ est st)
+theorem Joint.of_eq {F : Feat} {Γ : Glob} {est est' : ESG.St} {st st' : PState} (h : Joint F Γ est st)
     (h1 : est'.groups = est.groups) (h2 : est'.names = est.names) (h3 : st'.groupCount = st.groupCount)
-    (h4 : st'.input = st.input) : Joint Γ est' st' :=
+    (h4 : st'.input = st.input) : Joint F Γ est' st' :=
   ⟨by rw [h1, h3]; exact h.groups, by rw [h2, h4]; exact h.names⟩
 
 /-! ### Unfolding equations, conditional form (no `match` in the statements) -/
@@ -1040,7 +1165,7 @@ theorem simD_step {c : Cfg} {F : Feat} {u : Bool} {Γ : Glob} {n : Nat} (hA : Si
         have he1' : EInv Γ { est1 with scope := est.scope } :=
           ⟨he1.maxDec, he1.refs, fun x hx => hgr1.names.subset (he.scope x hx)⟩
         simp only [List.length_cons] at hlen
-        have hg1' : Joint Γ ({ est1 with scope := est.scope } : ESG.St) { st1 with input := r' } :=
+        have hg1' : Joint F Γ ({ est1 with scope := est.scope } : ESG.St) { st1 with input := r' } :=
           (hg1.drop (F := F) (p := [0x7C]) hcr.1 (neutral_out F (by decide) (by decide) (by decide) (by decide))).of_eq
             rfl rfl rfl rfl
         have hD' := hD r' _ (by omega) he1' f' { st1 with input := r' } (terms ++ [t]) (by omega) rfl hi1 hg1'
@@ -1107,7 +1232,7 @@ theorem termStep_err {f : Nat} {st : PState} {acc : List Node} {x : Nat} {e : Pa
 theorem tstep_qa {F : Feat} {u : Bool} {Γ : Glob} {f : Nat} {st : PState} {acc : List Node} {x : Nat} {out : AtomOut}
     {r : List Nat} (h : consumeAtom f st acc x = .ok out) (hcr : CR F u Γ st r out.st)
     (hoff : out.startOffset ≤ out.result.length) (hqa : out.quantifierAllowed = true) (est' : ESG.St)
-    (hg : Joint Γ est' out.st) :
+    (hg : Joint F Γ est' out.st) :
     match optQuant r with
     | .ok r2 => TStep F u Γ f st acc x r2 est'
     | .bad => IsSyn (termStep f st acc x)
@@ -1128,7 +1253,7 @@ theorem tstep_qa {F : Feat} {u : Bool} {Γ : Glob} {f : Nat} {st : PState} {acc 
 /-- The quantifier part, for a non-quantifiable atom. -/
 theorem tstep_noq {F : Feat} {u : Bool} {Γ : Glob} {f : Nat} {st : PState} {acc : List Node} {x : Nat} {out : AtomOut}
     {r : List Nat} (h : consumeAtom f st acc x = .ok out) (hcr : CR F u Γ st r out.st)
-    (hqa : out.quantifierAllowed = false) (est' : ESG.St) (hg : Joint Γ est' out.st) :
+    (hqa : out.quantifierAllowed = false) (est' : ESG.St) (hg : Joint F Γ est' out.st) :
     TStep F u Γ f st acc x r est' := by
   obtain ⟨h1, h2⟩ := quantStep_noq st.groupCount out hqa hcr.2.2
   rw [hcr.1] at h1 h2
@@ -1170,25 +1295,36 @@ followed by the `)` test, for any node wrapper. -/
 theorem group_sim {c : Cfg} {F : Feat} {u : Bool} {Γ : Glob} {n : Nat} (hB : SimB c F u Γ n) {r' : List Nat}
     {est1 : ESG.St} {f' : Nat} {st1 : PState} (hn : 6 * r'.length + 6 ≤ n) (he1 : EInv Γ est1)
     (hf : 4 * r'.length + 3 ≤ f') (hin1 : st1.input = r')
-    (hi1 : PInv F u Γ { st1 with depth := st1.depth + 1 }) (hg1 : Joint Γ est1 st1)
+    (hi1 : PInv F u Γ { st1 with depth := st1.depth + 1 }) (hg1 : Joint F Γ est1 st1)
     (W : Node → PState → Node) (qa : Bool) (acc : List Node) :
     Out Γ (body c n r' est1)
       (fun r est' => ∃ out,
         closeParenA acc acc.length (wrapCd (consumeDisjunction f') st1 W qa) = .ok out ∧
         CR F u Γ st1 r out.st ∧ out.startOffset ≤ out.result.length ∧ out.quantifierAllowed = qa ∧
-        Joint Γ est' out.st)
+        Joint F Γ est' out.st)
       (IsSyn (closeParenA acc acc.length (wrapCd (consumeDisjunction f') st1 W qa))) := by
   have hB' := hB r' est1 hn he1 f' st1 hf hin1 hi1 hg1
   refine hB'.mono ?_ (fun hs => closeParen_syn W qa acc acc.length hs)
   rintro r est' _ ⟨nd, st2, hcd, hr, hcr, hg2⟩
   exact ⟨_, closeParen_ok W qa acc acc.length hcd hr, hcr, by simp, rfl, hg2⟩
 
-theorem frag_bs_e {F : Feat} {r0 : List Nat} (h : fragCore F (0x5C :: r0) = true) : F.e = true := by
-  rcases r0 with _ | ⟨x, r⟩
-  · simpa [fragCore, fragGo] using h
-  · rw [fragCore_esc] at h
-    simp only [Bool.and_eq_true] at h
-    exact h.1.1
+theorem group_sim_mod {c : Cfg} {F : Feat} {u : Bool} {Γ : Glob} {n : Nat} (hB : SimB c F u Γ n) {r' : List Nat}
+    {est1 : ESG.St} {f' : Nat} {st1 : PState} (hn : 6 * r'.length + 6 ≤ n) (he1 : EInv Γ est1)
+    (hf : 4 * r'.length + 3 ≤ f') (hin1 : st1.input = r')
+    (hi1 : PInv F u Γ { st1 with depth := st1.depth + 1 }) (hg1 : Joint F Γ est1 st1)
+    (saved : Flags) (hs1 : saved.unicode = u) (hs2 : F.k = true → saved.unicodeSets = false)
+    (hs3 : saved.unicodeSets = Γ.V) (acc : List Node) :
+    Out Γ (body c n r' est1)
+      (fun r est' => ∃ out,
+        closeParenA acc acc.length (wrapCdF (consumeDisjunction f') st1 saved) = .ok out ∧
+        CR F u Γ st1 r out.st ∧ out.startOffset ≤ out.result.length ∧ out.quantifierAllowed = true ∧
+        Joint F Γ est' out.st)
+      (IsSyn (closeParenA acc acc.length (wrapCdF (consumeDisjunction f') st1 saved))) := by
+  have hB' := hB r' est1 hn he1 f' st1 hf hin1 hi1 hg1
+  refine hB'.mono ?_ (fun hs => closeParenF_syn saved acc acc.length hs)
+  rintro r est' _ ⟨nd, st2, hcd, hr, hcr, hg2⟩
+  exact ⟨_, closeParenF_ok saved acc acc.length hcd hr, ⟨rfl, hcr.2.1, hcr.2.2.setFlags saved hs1 hs2 hs3⟩,
+    by simp, rfl, hg2.of_eq rfl rfl rfl rfl⟩
 
 /-- `(?<` that is not a look-behind: the crate's capture arm reads a group name. -/
 theorem paren_named {cd : PState → Res (Node × PState)} {st : PState} {acc : List Node} {r0 : List Nat}
@@ -1260,22 +1396,27 @@ theorem namedRef_eqs (c : Cfg) (est : ESG.St) :
     · rename_i r1; exact absurd rfl (h r1)
     · rfl
 
-theorem parenOk_other {nm : Bool} {y : Nat} {r2 : List Nat} (hpo : parenOk nm (0x3F :: y :: r2) = true)
-    (hl : lookShape (0x28 :: 0x3F :: y :: r2) = false) (hy : y ≠ 0x3A) (hy2 : y ≠ 0x3C) :
+theorem parenOk_other {y : Nat} {r2 : List Nat}
+    (hl : lookShape (0x28 :: 0x3F :: y :: r2) = false) (hy : y ≠ 0x3A) (hy2 : y ≠ 0x3C)
+    (hm : ¬ (y = 0x69 ∨ y = 0x6D ∨ y = 0x73 ∨ y = 0x2D)) :
     y ≠ 0x3C ∧ y ≠ 0x3D ∧ y ≠ 0x21 ∧ y ≠ 0x3A ∧ y ≠ 0x69 ∧ y ≠ 0x6D ∧ y ≠ 0x73 ∧ y ≠ 0x2D := by
-  refine ⟨hy2, ?_, ?_, hy, ?_⟩
+  simp only [not_or] at hm
+  refine ⟨hy2, ?_, ?_, hy, hm⟩
   · rintro rfl; simp [lookShape] at hl
   · rintro rfl; simp [lookShape] at hl
-  · have : parenOk nm (0x3F :: y :: r2) = !(y == 0x69 || y == 0x6D || y == 0x73 || y == 0x2D) := by
-      unfold parenOk
-      split <;> simp_all
-    rw [this] at hpo
-    simp at hpo
-    omega
+
+/-- `parenOk` on a modifier prefix. -/
+theorem parenOk_mod {nm md : Bool} {y : Nat} {r2 : List Nat} (hpo : parenOk nm md (0x3F :: y :: r2) = true)
+    (hm : y = 0x69 ∨ y = 0x6D ∨ y = 0x73 ∨ y = 0x2D) : md = true := by
+  rcases hm with rfl | rfl | rfl | rfl <;> simpa [parenOk] using hpo
 
 theorem simM_step {c : Cfg} {F : Feat} {u : Bool} {Γ : Glob} {n : Nat} (hu : c.u = u) (heu : F.e = true → u = true)
-    (hkk : F.k = true → F.e = true ∧ u = true ∧ c.v = false)
-    (hnn : F.nm = true → F.e = true ∧ c.t = tabs) (hnd : Γ.L.Nodup)
+    (hkk : F.k = true → F.e = true ∧ u = true ∧ c.v = false ∧ F.vk = false)
+    (hnn : F.nm = true → c.t = tabs) (hmd : F.md = true → c.feat25 = true)
+    (hpr : F.pr = true → c.t = tabs ∧ c.v = Γ.V)
+    (hle : F.le = true → u = false ∧ Γ.V = false ∧ (F.nm = false → c.n = false ∧ Γ.N = []))
+    (hlk : F.lk = true → u = false ∧ c.v = false ∧ Γ.V = false ∧ F.vk = false ∧ (F.nm = false → c.n = false ∧ Γ.N = []))
+    (hvcls : F.vk = true → u = true ∧ F.e = true ∧ c.v = true ∧ c.t = tabs ∧ Γ.V = true) (hnd : Γ.L.Nodup)
     (hB : SimB c F u Γ n) : SimM c F u Γ (n + 1) := by
   intro x r0 est hn he hl h1 h2 h3 h4 f st acc hf hin hi hg
   obtain ⟨f', rfl⟩ : ∃ f', f = f' + 1 := ⟨f - 1, by omega⟩
@@ -1284,13 +1425,32 @@ theorem simM_step {c : Cfg} {F : Feat} {u : Bool} {Γ : Glob} {n : Nat} (hu : c.
   rw [hin] at hfr
   have hiu := hi.uni
   by_cases hx1 : x = 0x5C
-  · -- an escape (UnicodeMode only)
+  · -- an escape
     subst hx1
-    have he' := frag_bs_e hfr
+    rcases fragCore_bs hfr with ⟨he', hE⟩ | ⟨hl', hL⟩
+    rotate_left
+    · -- Annex B mode: no escape is an error (but `\\` at the end of the pattern)
+      obtain ⟨hu0, hV0, hN0⟩ := hle hl'
+      subst hu0
+      rw [atom_bs, cAtom_bs]
+      rcases r0 with _ | ⟨y, r⟩
+      · have : atomEscape c [] est = .bad := by unfold atomEscape; rfl
+        rw [this]
+        unfold atomBackslashA
+        rw [consume_eq hin]
+        exact isSyn_synErr _
+      · have hwb : y ≠ 0x62 ∧ y ≠ 0x42 := by
+          simp only [lookShape, Bool.or_eq_false_iff, beq_eq_false_iff_ne] at hl
+          exact ⟨hl.1, hl.2⟩
+        obtain ⟨r', nd, p, hae, hab, hp, hnp⟩ := backslash_L F c hu st hiu (by rw [hi.usets, hV0])
+          acc hin hwb (hL y r rfl).1
+          (fun hk => ⟨(hN0 ((hL y r rfl).2 hk)).1, by rw [hi.named, (hN0 ((hL y r rfl).2 hk)).2]⟩) est
+        rw [hae, hab]
+        exact .inl ⟨he, _, rfl, ⟨rfl, rfl, hi.drop (hin.trans hp) hnp⟩, by simp, rfl, hg.drop (hin.trans hp) hnp⟩
     have hu' := heu he'
     subst hu'
     have hch : AllChar r0 := by
-      have := hi.chars he'
+      have := hi.chars (.inl he')
       rw [hin] at this
       exact fun c hc => this c (by simp [hc])
     rw [atom_bs, cAtom_bs]
@@ -1299,7 +1459,7 @@ theorem simM_step {c : Cfg} {F : Feat} {u : Bool} {Γ : Glob} {n : Nat} (hu : c.
       -- against the final group count by the grammar
       obtain ⟨y, r, rfl, hd⟩ := hdig
       rw [atomEscape_dec c hu r hd est, backslash_dec st hiu acc hin hd]
-      obtain ⟨p, hp, hnp⟩ := dec_neutral F false r hd
+      obtain ⟨p, hp, hnp⟩ := dec_neutral F 0 r hd
       by_cases hle : min (takeDigits (y :: r) 0 0).1 USIZE_MAX ≤ st.groupCountMax
       · rw [if_pos hle]
         rw [hi.gmax] at hle
@@ -1315,13 +1475,12 @@ theorem simM_step {c : Cfg} {F : Feat} {u : Bool} {Γ : Glob} {n : Nat} (hu : c.
     · -- `\\k<name>`: the crate looks the name up in the pre-scan's table at once, the grammar at the end
       obtain ⟨r, rfl⟩ := hkc
       have hnm : F.nm = true := by
-        rw [fragCore_esc] at hfr
-        simp only [Bool.and_eq_true, escOk, Bool.not_eq_true', Bool.or_eq_false_iff, beq_eq_false_iff_ne,
-          Bool.and_eq_false_iff] at hfr
-        rcases hfr.1.2.2 with h | h
-        · exact absurd rfl h
-        · simpa using h
-      obtain ⟨_, hct⟩ := hnn hnm
+        have := hE _ _ rfl
+        simp only [Bool.or_eq_true, Bool.and_eq_true] at this
+        rcases this with h | h
+        · simpa [escOk] using h
+        · simp at h
+      have hct := hnn hnm
       rw [atomEscape_k c hu r est]
       obtain ⟨k1, k2, k3⟩ := backslash_k st hiu acc hin (by rw [hi.named]; exact hi.nok)
       obtain ⟨n1, n2, n3⟩ := namedRef_eqs c est
@@ -1359,8 +1518,28 @@ theorem simM_step {c : Cfg} {F : Feat} {u : Bool} {Γ : Glob} {n : Nat} (hu : c.
           · rfl
         rw [n3 r (fun r1 h => hlt ⟨r1, h⟩)]
         exact k1 _ hnc
+    by_cases hpc : ∃ y r, r0 = y :: r ∧ (y = 0x70 ∨ y = 0x50)
+    · -- a property escape
+      obtain ⟨y, r, rfl, hy⟩ := hpc
+      have hprt : F.pr = true := by
+        have := hE _ _ rfl
+        simp only [Bool.or_eq_true, Bool.and_eq_true] at this
+        rcases this with h | h
+        · rcases hy with rfl | rfl <;> simp [escOk] at h
+        · exact h.1
+      obtain ⟨hct, hcv⟩ := hpr hprt
+      have hs := backslash_p F c hct hu st hiu (by rw [hi.usets, hcv]) acc hy hin est
+      cases hae : atomEscape c (y :: r) est with
+      | fuel => rw [hae] at hs; exact hs
+      | bad => rw [hae] at hs; exact hs
+      | ok p =>
+        obtain ⟨r', est'⟩ := p
+        rw [hae] at hs
+        obtain ⟨rfl, nd, p, hab, hp, hnp⟩ := hs
+        exact .inl ⟨he, _, hab, ⟨rfl, rfl, hi.drop (hin.trans hp) hnp⟩, by simp, rfl, hg.drop (hin.trans hp) hnp⟩
     · have hnd' : ∀ y r, r0 = y :: r → ¬ (0x31 ≤ y ∧ y ≤ 0x39) := fun y r h1 h2 => hdig ⟨y, r, h1, h2⟩
-      have hs := backslash_sim F c hu st hiu acc hin hfr hch hl hnd' (fun r h => hkc ⟨r, h⟩) est
+      have hs := backslash_sim F c hu st hiu acc hin hfr hch hl hnd' (fun r h => hkc ⟨r, h⟩)
+        (fun r => ⟨fun h => hpc ⟨_, r, h, .inl rfl⟩, fun h => hpc ⟨_, r, h, .inr rfl⟩⟩) est
       cases hae : atomEscape c r0 est with
       | fuel => rw [hae] at hs; exact hs
       | bad => rw [hae] at hs; exact hs
@@ -1370,21 +1549,61 @@ theorem simM_step {c : Cfg} {F : Feat} {u : Bool} {Γ : Glob} {n : Nat} (hu : c.
         obtain ⟨rfl, nd, p, hab, hp, hnp⟩ := hs
         exact .inl ⟨he, _, hab, ⟨rfl, rfl, hi.drop (hin.trans hp) hnp⟩, by simp, rfl, hg.drop (hin.trans hp) hnp⟩
   by_cases hx2 : x = 0x5B
-  · -- a character class (UnicodeMode without `v` only)
+  · -- a character class (no `v`)
     subst hx2
-    have hk : F.k = true ∧ fragGo F true r0 = true := by
+    have hk0 : (F.k || F.lk || F.vk) = true ∧ fragGo F 1 r0 = true := by
       have := hfr
       unfold fragCore at this
       rw [fragGo_open, Bool.and_eq_true] at this
       exact this
-    obtain ⟨hke, hku, hkv⟩ := hkk hk.1
-    subst hku
-    have hch : AllChar r0 := by
-      have := hi.chars hke
-      rw [hin] at this
-      exact fun c hc => this c (by simp [hc])
-    have hs := class_sim F c hu hkv (cd := consumeDisjunction f') st hiu (hi.nov hk.1) acc hin hch hk.2
-      n (by omega) est
+    have hs : match atom c (n + 1) (0x5B :: r0) est with
+        | .ok (r', est') => est' = est ∧
+            (∃ nd, consumeAtomA (consumeDisjunction f') st acc 0x5B =
+              .ok ⟨acc ++ [nd], { st with input := r' }, acc.length, true⟩) ∧
+            ∃ p, 0x5B :: r0 = p ++ r' ∧ Neutral F p
+        | .bad => IsSyn (consumeAtomA (consumeDisjunction f') st acc 0x5B)
+        | .fuel => False := by
+      by_cases hvk9 : F.vk = true
+      · -- class sets (flag `v`)
+        obtain ⟨hu1, hve, hcv, hct, hV⟩ := hvcls hvk9
+        subst hu1
+        have hch : AllChar r0 := by
+          have := hi.chars (.inl hve)
+          rw [hin] at this
+          exact fun c hc => this c (by simp [hc])
+        have hdep : st.depth + brk r0 ≤ 256 := by
+          have := hi.depth
+          rw [hin] at this
+          unfold dpot at this
+          rw [hvk9] at this
+          rw [brk_cons_br] at this
+          simp only [if_true] at this
+          omega
+        exact vclass_sim F c (cd := consumeDisjunction f') st ⟨hvk9, hct, hcv, hiu, by rw [hi.usets, hV]⟩ acc hin hch hdep
+          n (by omega) est
+      by_cases hlkt : F.lk = true
+      · -- Annex B mode
+        obtain ⟨hu0, hcv, hV0, hvk0, hN0⟩ := hlk hlkt
+        subst hu0
+        have hA : AtomSimOn F c st.flags (!st.named.isEmpty) (fun _ => True) :=
+          atomSim_L F c hu st.flags _ hiu hlkt hvk0
+            (fun h => ⟨(hN0 h).1, by rw [hi.named, (hN0 h).2]; rfl⟩)
+        exact class_simG F c false hu hcv (cd := consumeDisjunction f') st hiu (by rw [hi.usets, hV0])
+          (fun _ => True) (fun _ _ _ => trivial) hA acc hin trivial hk0.2 n (by omega) est
+      · have hlkf : F.lk = false := by simpa using hlkt
+        have hvkf : F.vk = false := by
+          cases h : F.vk with
+          | false => rfl
+          | true => exact absurd h hvk9
+        have hk : F.k = true := by simpa [hlkf, hvkf] using hk0.1
+        obtain ⟨hke, hku, hkv, _⟩ := hkk hk
+        subst hku
+        have hch : AllChar r0 := by
+          have := hi.chars (.inl hke)
+          rw [hin] at this
+          exact fun c hc => this c (by simp [hc])
+        exact class_sim F c hu hkv (fun h => (hpr h).1) hlkf hvkf (cd := consumeDisjunction f') st hiu (hi.nov hk) acc hin
+          hch hk0.2 n (by omega) est
     cases hat : atom c (n + 1) (0x5B :: r0) est with
     | fuel => rw [hat] at hs; exact hs
     | bad => rw [hat] at hs; exact hs
@@ -1431,9 +1650,9 @@ theorem simM_step {c : Cfg} {F : Feat} {u : Bool} {Γ : Glob} {n : Nat} (hu : c.
               · exact absurd h hl.1
               · exact absurd h hl.2
               · exact h
-          obtain ⟨hne, hct⟩ := hnn hnm
+          have hct := hnn hnm
           have hch : AllChar r2 := by
-            have := hi.chars hne
+            have := hi.chars (.inr hnm)
             rw [hin] at this
             exact fun c hc => this c (by simp [hc])
           obtain ⟨a1, a2⟩ := atom_named c n r2 est
@@ -1476,7 +1695,36 @@ theorem simM_step {c : Cfg} {F : Feat} {u : Bool} {Γ : Glob} {n : Nat} (hu : c.
               (by omega) he1 (by omega) rfl hent (hgent.of_eq rfl rfl rfl rfl)
               (fun c _ => .group st.groupCount (some nm) c) true acc
             exact this.mono (fun r est' _ ⟨out, ho, hcr, hoff, hqa, hg2⟩ => ⟨out, ho, hcr, hoff, hqa, hg2⟩) id
-        · have hyo := parenOk_other hpo hl hy hy2
+        by_cases hmod : y = 0x69 ∨ y = 0x6D ∨ y = 0x73 ∨ y = 0x2D
+        · -- a modifier group `(?ims-ims:`
+          have h25 := hmd (parenOk_mod hpo hmod)
+          obtain ⟨ms1, ms2⟩ := modifiers_sim c h25 (y :: r2) (fun r e => hy (by cases e; rfl))
+          cases hmo : modifiers c (y :: r2) with
+          | none =>
+            rw [atom_mod_none c n est hy2 hmo]
+            exact paren_mod_err hin hmod (ms2 hmo)
+          | some r1 =>
+            obtain ⟨⟨mods, hms⟩, p, hpne, hp, hpc⟩ := ms1 r1 hmo
+            rw [atom_mod_some c n est hy2 hmo, paren_mod_ok hin hmod hms]
+            have hna : namedAhead (p ++ r1) = none := by
+              rw [← hp]; exact namedAhead_none (.inl (by intro r' h; cases h; exact hy2 rfl))
+            have hnp : Neutral F p := neutral_plains F (fun x hx => (hpc x hx).plain)
+            have hin' : st.input = 0x28 :: 0x3F :: (p ++ r1) := by rw [hin, hp]
+            have hent := hi.enterQ (p := p) (r := r1) hin' hnp hna st.hasLookbehind
+            have hgent := hg.enterQ (p := p) (r := r1) hin' hnp hna st.hasLookbehind
+            obtain ⟨au1, au2⟩ := applyMods_uni st.flags mods
+            have hent' := hent.setFlags (applyMods st.flags mods) (by rw [au1]; exact hi.uni)
+              (fun hk => by rw [au2]; exact hi.nov hk) (by rw [au2]; exact hi.usets)
+            have hlen : r1.length < (y :: r2).length := by
+              rw [hp, List.length_append]
+              have : 0 < p.length := List.length_pos_iff.2 hpne
+              omega
+            simp only [List.length_cons] at hn hf hlen
+            have := group_sim_mod hB (r' := r1) (est1 := est) (f' := f')
+              (st1 := { st with input := r1, flags := applyMods st.flags mods })
+              (by omega) he (by omega) rfl hent' (hgent.of_eq rfl rfl rfl rfl) st.flags hi.uni hi.nov hi.usets acc
+            exact this.mono (fun r est' _ ⟨out, ho, hcr, hoff, hqa, hg2⟩ => ⟨out, ho, hcr, hoff, hqa, hg2⟩) id
+        · have hyo := parenOk_other hl hy hy2 hmod
           rw [atom_qother c n y r2 est ⟨hyo.1, hyo.2.2.2.1, hyo.2.2.2.2⟩]
           exact paren_other y hin hyo
     · -- capturing group
@@ -1668,8 +1916,13 @@ theorem simT_step {c : Cfg} {F : Feat} {u : Bool} {Γ : Glob} {n : Nat} (hu : c.
 
 /-- **The simulation**, for every fuel of the grammar recognizer. -/
 theorem sim_all {c : Cfg} {F : Feat} {u : Bool} (Γ : Glob) (hu : c.u = u) (heu : F.e = true → u = true)
-    (hkk : F.k = true → F.e = true ∧ u = true ∧ c.v = false)
-    (hnn : F.nm = true → F.e = true ∧ c.t = tabs) (hnd : Γ.L.Nodup) (n : Nat) :
+    (hkk : F.k = true → F.e = true ∧ u = true ∧ c.v = false ∧ F.vk = false)
+    (hnn : F.nm = true → c.t = tabs) (hmd : F.md = true → c.feat25 = true)
+    (hpr : F.pr = true → c.t = tabs ∧ c.v = Γ.V)
+    (hle : F.le = true → u = false ∧ Γ.V = false ∧ (F.nm = false → c.n = false ∧ Γ.N = []))
+    (hlk : F.lk = true → u = false ∧ c.v = false ∧ Γ.V = false ∧ F.vk = false ∧ (F.nm = false → c.n = false ∧ Γ.N = []))
+    (hvcls : F.vk = true → u = true ∧ F.e = true ∧ c.v = true ∧ c.t = tabs ∧ Γ.V = true) (hnd : Γ.L.Nodup)
+    (n : Nat) :
     SimD c F u Γ n ∧ SimA c F u Γ n ∧ SimB c F u Γ n ∧ SimT c F u Γ n ∧ SimQ c F u Γ n ∧
       SimM c F u Γ n := by
   induction n with
@@ -1684,6 +1937,6 @@ theorem sim_all {c : Cfg} {F : Feat} {u : Bool} (Γ : Glob) (hu : c.u = u) (heu 
   | succ n ih =>
     obtain ⟨hD, hA, hB, hT, hQ, hM⟩ := ih
     exact ⟨simD_step hA hD, simA_step hu hT hA, simB_step hD, simT_step hu hQ hB, simQ_step hM,
-      simM_step hu heu hkk hnn hnd hB⟩
+      simM_step hu heu hkk hnn hmd hpr hle hlk hvcls hnd hB⟩
 
 end Regress.C08Frag
